@@ -367,6 +367,9 @@ func runC02(c *Check) {
 	ruleSeenCensus(c, p, "C02-R12", steps)
 	c.Doc("C02-R13", "= C05-R2: on every start the chain height is raised to the persisted state's height (the apply step writes block, state, height in that order: a stop between the state and the height write leaves the store height one behind; the sync loop picks the next block by the store height and validates it against the state, so without the reconciliation every re-delivery of that block fails validation and the node gives up at every start).")
 	ruleRestartReconciliation(c, p, "C02-R13")
+	ruleDropDecisionsArePure(c, p, "C02-R14")
+	ruleWakeChannelBuffered(c, p, "C02-R15", "HeaderStoreRetrieveLoop", "DataStoreRetrieveLoop", "RetrieveLoop")
+	c.MinInstances("C02-R15", 3)
 	ruleHandOffNotUnderDeadline(c, p, "C02-R11")
 }
 
